@@ -503,9 +503,32 @@ def identity_runs(ctx, rng, count):
                 option, "" if diffuse else ", no diffusion", detail.get("why")), case, impl=detail.get("cgmap_identity"), expected=detail.get("plain"))
 
 
+def unsafe_graph(system, im):
+    """would the coarse system make the native engine read outside its arrays?  (guards the in-process engine calls)"""
+    from strengths.coarsegrain import coarsegrain_system
+    try:
+        cg = coarsegrain_system(system, list(im))
+    except Exception as e:  # noqa
+        return "coarsegrain_system raised %r" % (e,)
+    n = len(cg.space.nodes)
+    for e in cg.space.edges:
+        if not (0 <= e.i < n and 0 <= e.j < n):
+            return "edge (%d, %d) names a node outside [0, %d)" % (e.i, e.j, n)
+        if not (float(e.distance.value) > 0 and float(e.surface.value) > 0):
+            return "edge (%d, %d) has surface %r and distance %r" % (e.i, e.j, e.surface.value, e.distance.value)
+    if any(not float(node.volume.value) > 0 for node in cg.space.nodes):
+        return "a node has a non-positive volume"
+    if len(cg.state.value) != n * system.network.nspecies() or len(cg.chemostats) != n * system.network.nspecies():
+        return "state / chemostat size mismatch"
+    return None
+
+
 def identity_compare(system, option, ts, seed, dt, diffuse):
     from strengths import simulate
     n = system.space.size()
+    why = unsafe_graph(system, list(range(n)))
+    if why:
+        return False, {"why": "identity coarse-graining is not a usable graph: " + why}
     try:
         plain = simulate(system, t_sample=ts, engine=common.load_engine(option), time_step=dt, rng_seed=seed)
         cgd = simulate(system, t_sample=ts, engine=common.load_engine(option), time_step=dt, rng_seed=seed, cgmap=list(range(n)))
@@ -550,6 +573,14 @@ def cg_structure_runs(ctx, rng, count):
         im, ns = c["im"], c["ns"]
         ts = [0.0, 0.25, 0.5]
         case = {"sys": case_json(c), "simulate_cg": {"t_sample": ts, "time_step": 1 / 64}}
+        why = unsafe_graph(system, im)
+        if why:
+            # zero centroid distance between non-contiguous groups is legitimate geometry but unusable for a simulation: skip those
+            if "distance" in why and "surface" in why:
+                ctx.count("simulate_cgmap_skipped_zero_distance")
+                continue
+            ctx.violation("simulate-cg:unusable-graph", "coarse-grained system cannot be simulated: " + why, case, impl=why)
+            continue
         try:
             out = simulate(system, t_sample=ts, engine=common.load_engine("euler"), time_step=1 / 64, cgmap=list(im))
         except Exception as e:  # noqa
@@ -598,6 +629,12 @@ def real_coarsegrain(c):
 def run(ctx):
     rng = ctx.rng
     from strengths.coarsegrain import check_index_map_validity, grid_to_graph
+    ctx.notes.append("proved for all inputs: generated subscripts / tests / statement inventory, valid_iff_partial (five of the six rules; the "
+                     "environment rule stays in the form 'the code's environment loop returns normally'), cg_volume, cg_volume_SI, "
+                     "cg_no_loops_no_dups, periodic_grid_raises.  NOT proved for all inputs (kept as full statements in Props/C16.lean, "
+                     "kernel-evaluated on concrete instances, and decided on every generated case by the oracle on the real code + the "
+                     "correspondence of the model): cg_species_total, cg_env, cg_chem_any, cg_edge_iff, cg_surface, cg_distance, "
+                     "uncg_group_total, uncg_dropped_zero, uncg_even, identity_map")
     n_valid = ctx.n(170, 8000)
     n_invalid = ctx.n(60, 2500)
     cases = [gen_case(rng) for _ in range(n_valid)] + [gen_case(rng, invalid=True) for _ in range(n_invalid)] + \
@@ -681,10 +718,53 @@ def run(ctx):
         if ctx.time_left() < 25:
             ctx.notes.append("time budget reached after %d systems" % (b0 + len(chunk)))
             break
-    # ---- un-coarse-graining with malformed maps (model vs code: raise or not)
-    # ---- identity map and cgmap structure on the real engines
-    identity_runs(ctx, rng, ctx.n(6, 60))
-    cg_structure_runs(ctx, rng, ctx.n(5, 60))
+    # ---- identity map and cgmap structure on the real engines, in a child process (a coarse system produced by a defective
+    #      tree can make the native engine hang or crash; that must not take the check down)
+    engine_runs_in_child(ctx, rng.randint(0, 10 ** 9), ctx.n(6, 60), ctx.n(5, 60), ctx.n(45, 900))
+
+
+class _Rec:
+    """stand-in for Ctx inside the child: records what the engine runs report"""
+
+    def __init__(self, seed):
+        import random
+        self.rng = random.Random(seed)
+        self.violations, self.cases, self.counts = [], [], {}
+
+    def violation(self, key, what, case, impl=None, expected=None, replay_cmd=None):
+        self.violations.append({"key": key, "what": what, "case": case, "impl": impl, "expected": expected})
+
+    def case(self, fp, nontrivial=True, sample=None):
+        self.cases.append([repr(fp), bool(nontrivial)])
+
+    def count(self, k, n=1):
+        self.counts[k] = self.counts.get(k, 0) + n
+
+
+def child_engine_runs(seed, n_identity, n_structure):
+    rec = _Rec(seed)
+    identity_runs(rec, rec.rng, n_identity)
+    cg_structure_runs(rec, rec.rng, n_structure)
+    return common.jsonable({"violations": rec.violations, "cases": rec.cases, "counts": rec.counts})
+
+
+def engine_runs_in_child(ctx, seed, n_identity, n_structure, timeout):
+    import json
+    code = ("import json, common; common.use_repo_package(); from props import c16; "
+            "print('RESULT' + json.dumps(c16.child_engine_runs(%d, %d, %d)))" % (seed, n_identity, n_structure))
+    status, out = common.run_child(code, timeout=timeout)
+    line = [l for l in out.splitlines() if l.startswith("RESULT")]
+    if status != "ok" or not line:
+        ctx.notes.append("engine runs (identity map, simulate with cgmap) ended with %s" % status)
+        ctx.broken.append({"kind": "correspondence", "name": "simulate_cg_identity", "note": "child process %s: %s" % (status, out[-600:])})
+        return
+    r = json.loads(line[-1][len("RESULT"):])
+    for fp, nt in r["cases"]:
+        ctx.case(fp, nontrivial=nt)
+    for k, v in r["counts"].items():
+        ctx.count(k, v)
+    for v in r["violations"]:
+        ctx.violation(v["key"], v["what"], v["case"], impl=v["impl"], expected=v["expected"])
 
 
 def replay(ctx, rec):
